@@ -21,10 +21,12 @@ import (
 // Direction-B driver for the Prometheus instrumentation (C19): Prom.tla.
 
 type PromScenario struct {
-	Chain    []cat.Stage
-	Script   []pipe.Notif // values then optional terminal
-	NSubs    int
-	Conc     bool // subscriptions made concurrently
+	Chain      []cat.Stage
+	Script     []pipe.Notif // values then optional terminal
+	NSubs      int
+	Conc       bool // subscriptions made concurrently
+	Standalone bool // the stand-alone operators (IncCounterOnSubscription / OnNext / OnError / OnComplete, ObserveNextLag) around the chain instead of PipeN;
+	// the script may end with Error(nil)
 	Feedback bool // a hand-made lock-free hot source; value i+1 is emitted from INSIDE the observer's callback for value i (feedback loop): the
 	// instrumentation must not add a lock the plain pipeline does not have (transparency)
 }
@@ -85,9 +87,19 @@ func GenPromAt(r *rand.Rand, idx int) PromScenario {
 			sc.Script = append(sc.Script, pipe.Notif{K: "N", V: float64(0)})
 		}
 	}
+	if !sweep && !sc.Feedback && r.Intn(6) == 0 {
+		sc.Standalone = true
+		if len(sc.Chain) > 3 {
+			sc.Chain = sc.Chain[:3]
+		}
+	}
 	switch r.Intn(4) {
 	case 0:
-		sc.Script = append(sc.Script, pipe.Notif{K: "E", V: float64(1)})
+		cause := 1
+		if sc.Standalone && r.Intn(2) == 0 {
+			cause = 0 // Error(nil): a legal terminal, counted like any other error
+		}
+		sc.Script = append(sc.Script, pipe.Notif{K: "E", V: float64(cause)})
 	case 1, 2:
 		sc.Script = append(sc.Script, pipe.Notif{K: "C"})
 	}
@@ -171,7 +183,7 @@ func RunProm(lg *rec.Log, sc PromScenario, seed int64) []rec.Ev {
 					d.NextWithContext(context.WithValue(ctx, rec.KeyItem, items), any(int(n.V.(float64))))
 					items++
 				case "E":
-					d.ErrorWithContext(context.WithValue(ctx, rec.KeyItem, -1), cat.ErrSrc[1])
+					d.ErrorWithContext(context.WithValue(ctx, rec.KeyItem, -1), cat.ErrSrc[int(n.V.(float64))])
 				case "C":
 					d.CompleteWithContext(context.WithValue(ctx, rec.KeyItem, -1))
 				}
@@ -210,6 +222,7 @@ func RunProm(lg *rec.Log, sc PromScenario, seed int64) []rec.Ev {
 		}
 		var o ro.Observable[any]
 		var coll prometheus.Collector
+		var sa *standalone
 		if mode == "ref" {
 			o = src
 			for k, op := range ops {
@@ -220,7 +233,21 @@ func RunProm(lg *rec.Log, sc PromScenario, seed int64) []rec.Ev {
 			// the licence is looked at when the pipeline is SUBSCRIBED: half of the runs build the pipeline under the opposite licence state
 			flip := seed%2 == 0
 			roprometheus.SetVerifLicenseBypass((mode == "on") != flip)
-			o, coll = promPipe(roprometheus.CollectorConfig{Namespace: "verif"}, src, ops)
+			if sc.Standalone {
+				// the licence is looked at when the operators are APPLIED: no flip here
+				roprometheus.SetVerifLicenseBypass(mode == "on")
+				sa = newStandalone()
+				o = roprometheus.IncCounterOnSubscription[any](sa.sub)(src)
+				for _, op := range ops {
+					o = op(o)
+				}
+				o = roprometheus.IncCounterOnNext[any](sa.next)(o)
+				o = roprometheus.ObserveNextLag[any](sa.lag)(o)
+				o = roprometheus.IncCounterOnError[any](sa.err)(o)
+				o = roprometheus.IncCounterOnComplete[any](sa.comp)(o)
+			} else {
+				o, coll = promPipe(roprometheus.CollectorConfig{Namespace: "verif"}, src, ops)
+			}
 			roprometheus.SetVerifLicenseBypass(mode == "on")
 		}
 		all := make([][]rec.Ev, sc.NSubs)
@@ -295,6 +322,9 @@ func RunProm(lg *rec.Log, sc PromScenario, seed int64) []rec.Ev {
 				lg.Add(e)
 			}
 		}
+		if sa != nil {
+			sa.emit(lg, mode)
+		}
 		if coll != nil {
 			reg := prometheus.NewRegistry()
 			if err := reg.Register(coll); err == nil {
@@ -309,6 +339,32 @@ func RunProm(lg *rec.Log, sc PromScenario, seed int64) []rec.Ev {
 	roprometheus.SetVerifLicenseBypass(false)
 	lg.Add(rec.Ev{E: "end"})
 	return lg.Events()
+}
+
+// standalone holds the metrics of the stand-alone instrumentation operators of one run.
+type standalone struct {
+	sub, next, err, comp prometheus.Counter
+	lag                  prometheus.Summary
+}
+
+func newStandalone() *standalone {
+	c := func(n string) prometheus.Counter {
+		return prometheus.NewCounter(prometheus.CounterOpts{Name: "verif_sa_" + n})
+	}
+	return &standalone{sub: c("sub"), next: c("next"), err: c("err"), comp: c("comp"), lag: prometheus.NewSummary(prometheus.SummaryOpts{Name: "verif_sa_lag"})}
+}
+
+func (sa *standalone) emit(lg *rec.Log, mode string) {
+	val := func(c prometheus.Metric) *dto.Metric { m := &dto.Metric{}; _ = c.Write(m); return m }
+	for _, x := range []struct {
+		k string
+		v int
+	}{{"sa_sub", int(val(sa.sub).GetCounter().GetValue())}, {"sa_next", int(val(sa.next).GetCounter().GetValue())}, {"sa_err", int(val(sa.err).GetCounter().GetValue())},
+		{"sa_comp", int(val(sa.comp).GetCounter().GetValue())}, {"sa_lag", int(val(sa.lag).GetSummary().GetSampleCount())}} {
+		if mode == "on" || x.v != 0 { // licence off: the operators are the identity, nothing is counted (a non-zero value is reported and rejected)
+			lg.Add(rec.Ev{E: "metric", S: mode, K: x.k, V: x.v})
+		}
+	}
 }
 
 func hashVal(v any) int {
